@@ -4,6 +4,7 @@ import (
 	"encoding/json"
 	"fmt"
 	"strings"
+	"sync/atomic"
 
 	"github.com/SAP/go-dblib/capability"
 
@@ -338,6 +339,10 @@ type c19Obs struct {
 	bad string // structural oddity (nil version without error)
 }
 
+// c19Alias holds the description of a write into the caller's slice seen by
+// c19Build (reported by the case that ran it).
+var c19Alias atomic.Value
+
 func c19Build(c c19Cap, i int, literal bool) *capability.Capability {
 	desc := fmt.Sprintf("cap%d", i)
 	if c.ViaNew && !literal {
@@ -348,7 +353,20 @@ func c19Build(c c19Cap, i int, literal bool) *capability.Capability {
 		if c.OddTail && len(args) > 0 && args[len(args)-1] == "" {
 			args = args[:len(args)-1]
 		}
-		return capability.NewCapability(desc, args...)
+		// the bounds come from a table of the application: a sub-slice with
+		// spare capacity behind it, which NewCapability has no business
+		// writing to (a later capability built from the table would change)
+		table := make([]string, len(args)+2)
+		copy(table, args)
+		table[len(args)], table[len(args)+1] = "9.9.9-next-entry", "9.9.9-last-entry"
+		before := append([]string(nil), table...)
+		cp := capability.NewCapability(desc, table[:len(args)]...)
+		for k := range table {
+			if table[k] != before[k] {
+				c19Alias.Store(fmt.Sprintf("NewCapability(%q, table[:%d]...) changed table[%d] of the caller's slice from %q to %q (table %q)", desc, len(args), k, before[k], table[k], before))
+			}
+		}
+		return cp
 	}
 	cp := &capability.Capability{Description: desc}
 	for _, r := range c.Ranges {
@@ -691,6 +709,11 @@ func c19Exec(r *rt.Result, l *c19Local, cs c19Case, enumerated bool) {
 			b, _ := json.Marshal(cs.Caps)
 			r.Distinct(cs.Comparer + "\x00" + cs.Version + "\x00" + string(b))
 		}
+	}
+	if v := c19Alias.Load(); v != nil && v.(string) != "" {
+		c19Alias.Store("")
+		r.Violate("newcapability/writes-to-the-callers-slice", v.(string), cs)
+		return
 	}
 	if ob.pi != nil {
 		r.Violate("panic/"+ob.pi.Frame, fmt.Sprintf("%s on version %q panicked: %s", cs.API, cs.Version, ob.pi.Value), cs)
